@@ -331,6 +331,10 @@ def _c13() -> List[Obl]:
                                kind="bounded", bound=f"array length <= {k}; contents, length, cursor, operation and storage kind symbolic", fns=fns))
         for ln in range(4):
             for st in ("owned", "borrowed"):
+                # the vector harnesses of the wide words need 10-30 GB and 5-15 min of CBMC each; every array length is
+                # covered by the Verus unit mem_words for every word type, so the bounded cross-check keeps two lengths there
+                if (w == "u128" and not (ln in (0, 2) and st == "owned")) or (w == "u64" and ln in (1, 3) and st == "borrowed"):
+                    continue
                 tier = "quick" if w == "u8" else "thorough"
                 out.append(Obl(id=f"c13.writer_vec.{w}.len{ln}.{st}", prop="C13", engine="kani", target=f"obl_c13::{w}_::writer_vec_len{ln}_{st}", tier=tier,
                                mem_gb={"u32": 5, "u64": 10, "u128": 30}.get(w, 0), kind="bounded", bound=f"vector of length {ln} ({st} storage); contents, cursor and operation symbolic",
@@ -444,8 +448,8 @@ def _kind_for(h: str):
     return "complete", ""
 
 
-def _codes(prop: str, only: str, groups) -> List[Obl]:
-    """groups: list of (harness list, quick-set or None=all quick)"""
+def _codes(prop: str, only: str, groups, feats: str = "") -> List[Obl]:
+    """groups: list of (harness list, quick-set or None=all quick); feats: cargo features of /repo the harnesses are built with"""
     out = []
     pl = prop.lower()
     for hm, E in (("hbe", "BE"), ("hle", "LE")):
@@ -455,9 +459,13 @@ def _codes(prop: str, only: str, groups) -> List[Obl]:
                 if h.startswith("len_"):
                     kind, bound = "complete", ""
                 tier = "quick" if (quick is None or h in quick) else "thorough"
-                out.append(Obl(id=f"{pl}.{h}.{E}", prop=prop, engine="kani", target=f"obl_codes::{hm}::{h}", tier=tier, kind=kind, bound=bound,
-                               fns=_fns_for(h), only=only))
+                out.append(Obl(id=f"{pl}.{h}.{E}" + (f".{feats}" if feats else ""), prop=prop, engine="kani", target=f"obl_codes::{hm}::{h}", tier=tier, kind=kind, bound=bound,
+                               fns=_fns_for(h), only=only, features=feats, note=(f"built with the `{feats}` feature of /repo (the codes have feature-gated branches)" if feats else "")))
     return out
+
+
+# codes whose write path has a `#[cfg(feature = "checks")]` branch
+CHECKS_DEF_H = ["def_gamma", "def_delta", "def_omega", "def_pi", "def_rice", "def_exp_golomb"]
 
 
 def _golomb(prop: str, only: str, which) -> List[Obl]:
@@ -582,7 +590,8 @@ def _c03() -> List[Obl]:
 
 
 def _c04() -> List[Obl]:
-    return (_verus_golomb("C04", [V_MB_W, V_G_W, ("lemma_limit", "")]) + _stdspec("C04", ["ilog2"]) + _verus_rice("C04", [V_R_W]) + _verus_zeta("C04", [V_Z_W, ("lemma_zeta_params", "")]) + _verus_pi("C04", [V_P_W, ("lemma_pi_lambda", "")]) + _verus_eg("C04", [V_G2_W, V_E_W, ("lemma_eg_quot", "")]) +_codes("C04", r"c04|contract", [(DEF_H, None)]) + _golomb("C04", r"c04|contract", ["def", "mb_def"]))
+    return (_verus_golomb("C04", [V_MB_W, V_G_W, ("lemma_limit", "")]) + _stdspec("C04", ["ilog2"]) + _verus_rice("C04", [V_R_W]) + _verus_zeta("C04", [V_Z_W, ("lemma_zeta_params", "")]) + _verus_pi("C04", [V_P_W, ("lemma_pi_lambda", "")]) + _verus_eg("C04", [V_G2_W, V_E_W, ("lemma_eg_quot", "")]) +_codes("C04", r"c04|contract", [(DEF_H, None)]) + _codes("C04", r"c04|contract", [(CHECKS_DEF_H, {"def_omega", "def_rice"})], feats="checks")
+            + _golomb("C04", r"c04|contract", ["def", "mb_def"]))
 
 
 def _c05() -> List[Obl]:
@@ -785,6 +794,11 @@ def _c12() -> List[Obl]:
                 out.append(Obl(id=f"c12.write.{E}.{w}.L{L}", prop="C12", engine="kani", target=f"obl_c12::wr_{el}::{w}_::c12_write_l{L}", tier=tier,
                                kind="bounded", bound=f"slice length = {L} bytes (writer state, contents, bit offset symbolic)",
                                fns=[f"<BufBitWriter<{E},_<{w}>> as std::io::Write>::write"]))
+        # the io::Write view goes through write_bits(chunk, 64), whose argument check is a feature-gated branch: built with `checks`
+        for w, L, tier in (("u64", 9, "quick"), ("u8", 9, "thorough"), ("u128", 17, "thorough")):
+            out.append(Obl(id=f"c12.write.{E}.{w}.L{L}.checks", prop="C12", engine="kani", target=f"obl_c12::wr_{el}::{w}_::c12_write_l{L}", tier=tier, features="checks",
+                           kind="bounded", bound=f"slice length = {L} bytes (writer state, contents, bit offset symbolic)",
+                           fns=[f"<BufBitWriter<{E},_<{w}>> as std::io::Write>::write"], note="built with the `checks` feature of /repo"))
         for w in RWORDS:
             for L in LS:
                 tier = "quick" if (w in ("u8", "u64") and L in QL) else "thorough"
@@ -846,6 +860,14 @@ def _c16() -> List[Obl]:
             out.append(Obl(id=f"c16.class.{cl}.{el.upper()}", prop="C16", engine="kani", target=f"obl_c16::class_{cl}_{el}", kind=kind,
                            bound="codeword must fit the 256-bit model (every value otherwise)" if kind == "bounded" else "",
                            fns=["Codes::write / Codes::len for the members of a class of equal codes"]))
+    # the classes whose members go through feature-gated (`checks`) branches of the codes, built with that feature
+    for cl in ("unary", "gamma"):
+        for el in ("be", "le"):
+            kind = "bounded" if cl == "unary" else "complete"
+            out.append(Obl(id=f"c16.class.{cl}.{el.upper()}.checks", prop="C16", engine="kani", target=f"obl_c16::class_{cl}_{el}", kind=kind, features="checks",
+                           tier="quick" if el == "be" else "thorough",
+                           bound="codeword must fit the 256-bit model (every value otherwise)" if kind == "bounded" else "",
+                           fns=["Codes::write / Codes::len for the members of a class of equal codes"], note="built with the `checks` feature of /repo"))
     for t in ("parameterless", "zeta", "pi", "golomb", "exp_golomb", "rice"):
         out.append(Obl(id=f"c16.str.{t}", prop="C16", engine="native", target=f"c16_strings:c16_str_{t}", kind="bounded",
                        bound="concrete execution: parameter grid {0,1,2,3,7,10,11,63,64,2^32,usize::MAX}", fns=["<Codes as Display>::fmt", "<Codes as FromStr>::from_str"]))
